@@ -664,7 +664,7 @@ def make_member(cls, params, rng, dim=None, partition_blocks=None):
         return SumMember(cls, p, NormFunction(cls, p, 1.0, d), _quad(cls, p, rng, d, 0.0, 2.0, c))
     if cls == "ConvexIndicatorFunction":
         D = p.get("D", INF)
-        r = (D / 2 if D < INF else rng.choice([1.0, 3.0])) * rng.choice([1.0, 1.0, 0.5])
+        r = (D / 2 if D < INF else rng.choice([1.0, 3.0, 1e3])) * rng.choice([1.0, 1.0, 0.5])
         if rng.random() < 0.5 or d == 1:
             return BallIndicator(p, c, r)
         half = r / math.sqrt(d)
